@@ -1,5 +1,6 @@
 import SlimModel.Stat
 import SlimModel.Scan
+import SlimModel.Legacy
 /-
   Driver.Trie — family `trie`: the model side of harness/fam/trie/interp.go.
 
@@ -51,6 +52,15 @@ def statStr (r : Slim.StatRes) : String :=
 
 def b01 (t : String) : Bool := t == "1"
 
+/-- `st.encoder.GetEncodedSize(nil)` per encoder name: `none` = the call panics -/
+def encSizeOf (enc : String) : Option Nat :=
+  match enc with
+  | "i8" => some 1
+  | "i16" | "u16" => some 2
+  | "i32" | "u32" => some 4
+  | "i64" | "u64" | "int" => some 8
+  | _ => if enc.startsWith "bytes" then (enc.drop 5).toNat? else none
+
 def init : State := {}
 
 def parseFlag (c : Char) : Option Bool :=
@@ -65,6 +75,8 @@ def errStr (e : Err) : String :=
   match e with
   | .panic _ => "panic"
   | .fuel => "MODEL-FUEL"
+  | .badProto _ => "err:other"
+  | .other _ => "err:other"
   | e => "err:" ++ e.kind
 
 def valStr : Option Bytes → String
@@ -150,8 +162,31 @@ def step (st : State) (toks : List String) : State × String :=
     | some q => (st, both st (fun v => searchStr (search v q)))
     | none => (st, "bad-op")
   | ["trie.reload"] =>
-    -- TEMPORARY until SlimModel.Marshal lands: the loaded instance only has the message
-    (if st.has then ({ st with t1 := none }, "ok") else (st, "panic"))
+    -- Marshal, then Unmarshal into a fresh instance that only knows the encoder
+    if !st.has then (st, "panic") else
+    let buf := marshalSlim st.msg
+    let (inst, err) := Legacy.Instance.unmarshal {} (encSizeOf st.enc) buf
+    (match err with
+     | none => ({ st with t1 := none, msg := inst.inner, levels := inst.levels }, "ok")
+     | some e => ({ st with t1 := none, msg := inst.inner }, errStr e))
+  | ["trie.fresh", enc] =>
+    ({ st with has := true, t1 := none, msg := {}, enc := enc, levels := [(0, 0, 0)] }, "ok")
+  | ["trie.unmarshal", hex] =>
+    match parseHex hex with
+    | none => (st, "bad-op")
+    | some buf =>
+      if !st.has then (st, "panic") else
+      let (inst, err) := Legacy.Instance.unmarshal { inner := st.msg, levels := st.levels } (encSizeOf st.enc) buf
+      (match err with
+       | none => ({ st with t1 := none, msg := inst.inner, levels := inst.levels }, "ok")
+       | some e => ({ st with t1 := none, msg := inst.inner, levels := inst.levels }, errStr e))
+  | ["trie.reset"] =>
+    if !st.has then (st, "panic") else
+    ({ st with t1 := none, msg := {}, levels := [(0, 0, 0)] }, "ok")
+  | ["trie.marshal"] =>
+    if !st.has then (st, "panic") else
+    let buf := marshalSlim st.msg
+    (st, "ok " ++ toString buf.length ++ " " ++ fnv64 (buf.map UInt8.toNat))
   | ["trie.stat"] =>
     (st, match Slim.stat st.msg st.levels with | .ok r => statStr r | .error e => errStr e)
   | ["trie.string"] =>
